@@ -397,7 +397,7 @@ func constBytesOf(v ssa.Value) (string, bool) {
 // c06EscapeAtCursor: "starts with a valid escape" looks at the bytes at the cursor.
 func c06EscapeAtCursor(c *core.Check) {
 	p := c.Prog
-	r := c.Rule("R9", "valid escapes are tested at the cursor: in the consumers of the tokenizer, every test whether the input starts with backslash-newline (an invalid escape) slices the source at the current position tk.pos — not at the start of the token or another saved position", 2)
+	r := c.Rule("R9", "valid escapes are tested at the cursor: in the consumers of the tokenizer, every test whether the input starts with backslash-newline (an invalid escape) slices the source at the current position tk.pos — not at the start of the token or another saved position", 5)
 	n := 0
 	for _, fn := range p.FuncsOfPkg("css/parser") {
 		if fn.Signature.Recv() == nil || !strings.Contains(fn.Signature.Recv().Type().String(), "tokenizer") {
